@@ -151,6 +151,24 @@ theorem C04_vcd_block_values (bits : Nat) (hb2 : 2 ≤ bits) (calls : List (Nat 
         toSyms x.2.1 d bits = nums :=
   vcd_block_values bits hb2 calls s hw
 
+/-- **the VCD scalar path is transparent within a block**: any sequence of scalar value tokens (also written as `b1` / `b0b1`) at
+non-decreasing time indices → finish_block → load gives one compact entry per token at its time index; the symbol behind a
+compact entry is `C04_one_bit_roundtrip` -/
+theorem C04_vcd_onebit_block_roundtrip (c : Codec) (signals : Array SigEnc) (i : Nat) (s : SigEnc) (tt : List Nat) (t0 : Nat)
+    (calls : List (Nat × List Nat)) (hne : calls ≠ [])
+    (hw : vcdWrites { tpe := .bitvec 1 } calls = some s) (hs : signals.toList[i]? = some s)
+    (hsorted : (calls.map (·.1)).Pairwise (· ≤ ·)) (hsmall : ∀ t ∈ calls.map (·.1), t < 2 ^ 27)
+    (hlen : divCeil s.dataBytes.length 32 < 2 ^ 32) :
+    ∃ cs : List (Nat × Nat),
+      cs.map (·.1) = deltasFrom 0 (calls.map (·.1)) ∧ (∀ x ∈ cs, x.2 < 9) ∧
+      (let r := finishSignals c signals
+       let b : Block := { startTime := t0, timeTable := tt, offsets := r.2.1, data := r.2.2 }
+       loadSignal { blocks := [b] } i (.bitvec 1) =
+         some { maxStates := s.maxStates,
+                times := (replayOneBit cs 0 {}).2.timesRev.reverse,
+                entries := (replayOneBit cs 0 {}).2.entriesRev.reverse }) :=
+  vcd_onebit_block_roundtrip c signals i s tt t0 calls hne hw hs hsorted hsmall hlen
+
 /-- the same for the pre-encoded path (`raw_value_change`, used by the GHW loader): one entry per call at the call's time index;
 `compress_template` is the same function as the slicing core `repack` (`compressTemplate_eq_repack`), so the symbols behind such
 an entry are those of C13_minimal_repack -/
